@@ -9,4 +9,9 @@ def initOk3 (c : PanelCfg) (sh : Sh) : Bool :=
   (List.range c.n).all (fun k => decide (k < getN c.etree k))
   && P.all (fun p => (getN sh.typ p != RELAXED_SNODE) || P.all (fun q => dadPanel c sh q != p))
 
+/-- executable form of `PostOrd` (Proofs/RelaxSnode.lean), the hypothesis of the `relaxSnode` theorems: parents strictly above
+their children and inside [0, n]; evaluated by the driver on every configuration run through the real `pxgstrf_relax_snode` -/
+def postOrdB (n : Nat) (etree : Array Nat) : Bool :=
+  (List.range n).all (fun k => decide (k < getN etree k) && decide (getN etree k ≤ n))
+
 end Slu
